@@ -20,7 +20,7 @@ DB = "DB1"
 SC = "SC"
 
 SPEC = {
-    "runs": {"quick": 2500, "thorough": 80000},
+    "runs": {"quick": 2500, "thorough": 60000},
     "wall": {"quick": 600, "thorough": 7200},
     "chunk": 10,
     "level": "exploration",
